@@ -63,7 +63,38 @@ func newLexer(xpath string) *lexer.Lexer {
 		}
 	}
 
+	disambiguateOperatorNames(lex)
+
 	return lex
+}
+
+// The generated lexer always returns and, or, div and mod as operator keywords,
+// so an element called div could not be selected (//div was a syntax error).
+// XPath 1.0 section 3.7 decides between the two readings by the preceding
+// token: "If there is a preceding token and the preceding token is not one of
+// @, ::, (, [, , or an Operator, then a * must be recognized as a
+// MultiplyOperator and an NCName must be recognized as an OperatorName."
+// Everywhere else such a word is a name and is retagged as ncname.  The ':' of
+// a QName counts like '::', because the lexer splits QNames into three tokens.
+func disambiguateOperatorNames(lex *lexer.Lexer) {
+	operandExpected := true
+
+	for i, t := range lex.Tokens {
+		switch t.Type().ID() {
+		case "and", "or", "div", "mod":
+			if operandExpected {
+				lex.Tokens[i] = token.New(token.IDToType["ncname"], t.Lext(), t.Rext(), t.GetInput())
+			}
+
+			operandExpected = !operandExpected
+		case "*":
+			operandExpected = !operandExpected
+		case "@", "::", ":", "(", "[", ",", "/", "//", "|", "+", "-", "=", "!=", "<", "<=", ">", ">=":
+			operandExpected = true
+		default:
+			operandExpected = false
+		}
+	}
 }
 
 // Creates an XPath query.
